@@ -9,6 +9,14 @@ mod c07;
 mod c09;
 mod c10;
 mod c11;
+#[cfg(feature = "ark")]
+mod c13;
+#[cfg(feature = "ark")]
+mod c14;
+#[cfg(feature = "ark")]
+mod c15;
+#[cfg(feature = "ark")]
+mod r1cs_util;
 mod c17;
 mod core;
 mod explorer;
@@ -119,6 +127,21 @@ fn dispatch(ctx: &Arc<Ctx>) -> &'static str {
             c11::run(ctx);
             "exploration"
         }
+        #[cfg(feature = "ark")]
+        "C13" => {
+            c13::run(ctx);
+            "model_checking"
+        }
+        #[cfg(feature = "ark")]
+        "C14" => {
+            c14::run(ctx);
+            "fault_enumeration"
+        }
+        #[cfg(feature = "ark")]
+        "C15" => {
+            c15::run(ctx);
+            "exploration"
+        }
         "C17" => {
             c17::run(ctx);
             "exploration"
@@ -186,6 +209,21 @@ fn replay(doc: &Value) -> i32 {
                     Err(m) => (false, Value::String(format!("panic: {m}"))),
                 },
                 e if e.starts_with("E3/C11") => match guarded(|| c11::replay(&doc["case"])) {
+                    Ok(r) => r,
+                    Err(m) => (false, Value::String(format!("panic: {m}"))),
+                },
+                #[cfg(feature = "ark")]
+                e if e.starts_with("E3/C13") || e.starts_with("E2/C13") => match guarded(|| c13::replay(&doc["case"])) {
+                    Ok(r) => r,
+                    Err(m) => (false, Value::String(format!("panic: {m}"))),
+                },
+                #[cfg(feature = "ark")]
+                e if e.starts_with("E2/C14") => match guarded(|| c14::replay(&doc["case"])) {
+                    Ok(r) => r,
+                    Err(m) => (false, Value::String(format!("panic: {m}"))),
+                },
+                #[cfg(feature = "ark")]
+                e if e.starts_with("E3/C15") => match guarded(|| c15::replay(&doc["case"])) {
                     Ok(r) => r,
                     Err(m) => (false, Value::String(format!("panic: {m}"))),
                 },
